@@ -135,11 +135,11 @@ Proof.
                  rewrite nlookup_nremove_same by exact N. exact I.
         -- rewrite G in H. cbv iota in H. destruct force.
            ++ inversion H; subst s' x. clear H. split; [reflexivity|].
-              set (e' := {| e_val := e_val e; e_loc := e_loc e; e_hash := e_hash e; e_meta := stamp s (bo_file o); e_mod := false |}).
+              set (e' := {| e_val := e_val e; e_loc := e_loc e; e_hash := e_hash e; e_meta := e_meta e; e_mod := false |}).
               assert (C2 : core Shm blen (upd_size (set_entry s (bo_file o) e') (b_size s))).
               { apply T_set; try (destruct (c_wf _ _ _ C) as (_ & _ & W3); apply (W3 _ _ He)); [exact C| | |].
                 - rewrite He. unfold wopt, wt, e'. cbn [e_mod]. rewrite Em. lia.
-                - split; [reflexivity|]. exists d. split; [exact Hd|]. intros _. apply Hv. reflexivity.
+                - split; [unfold e'; cbn [e_meta]; exact M|]. exists d. split; [exact Hd|]. intros _. apply Hv. reflexivity.
                 - intros _. split; [right; exists e; split; [exact He|reflexivity]|exact P3]. }
               constructor; try reflexivity.
               ** exact C2.
